@@ -8,7 +8,7 @@ import math
 import z3
 
 from .values import (SymV, Opaque, AbsVal, Obj, ClassRef, ExtClass, FuncRef, BoundMethod, ExtFunc, ModRef,
-                     PyList, PyDict, PySet, SymSeq, SymDict, SymColl, SDict, NpCell, NpArr, NpSlice, SliceV,
+                     PyList, PyDict, PySet, SymSeq, SymDict, SymColl, SDict, NpCell, NpArr, NpSlice, SliceV, NameK,
                      EngineLimit, is_sym, ival, rval, bval, nameval, mk, kind_of, intern_name, NONE_ID, A1, A2)
 
 EXT_SUBMODULES = {"numpy.random", "os.path", "gymnasium.spaces", "gym.spaces", "yaml"}
@@ -50,7 +50,7 @@ def ext_class_has(cname, member):
 
 
 def check_hashable_concrete(k):
-    if isinstance(k, (str, int, float, bool)) or k is None:
+    if isinstance(k, (str, int, float, bool, NameK)) or k is None:
         return
     if isinstance(k, tuple):
         for x in k:
@@ -173,6 +173,10 @@ def _eq_term(I, a, b):
             return False
         raise EngineLimit(f"== between {a!r} and {b!r}")
     if not is_sym(a) and not is_sym(b):
+        if isinstance(a, NameK) != isinstance(b, NameK) and not (a is None or b is None):
+            # int-coded scenario name against a python literal: names are str, never equal to numbers;
+            # against an interned literal string they differ (codes are disjoint)
+            return False
         return a == b
     if ka == "name" or kb == "name":
         if ka == "name" and kb == "name":
@@ -1017,6 +1021,34 @@ def _m_get(I, b, a, kw, node):
             return got
         return default
     raise EngineLimit("dict.get")
+
+
+@ext("dict.pop")
+def _m_dpop(I, b, a, kw, node):
+    key = a[0]
+    has_default = len(a) > 1
+    if isinstance(b, PyDict):
+        check_hashable_concrete(key)
+        if not b.fresh:
+            I.ctx.writes.append(("dict", b))
+        if key in b.d:
+            return b.d.pop(key)
+        if has_default:
+            return a[1]
+        I.raise_("KeyError", node)
+    if isinstance(b, SDict):
+        ks = key_terms(key, b.arity)
+        if not b.fresh:
+            I.ctx.writes.append(("sdict", b))
+        present = I.ctx.branch(z3.Select(b.dom, *ks))
+        if present:
+            v = mk(z3.Select(b.val, *ks), b.vkind)
+            b.dom = z3.Store(b.dom, *ks, z3.BoolVal(False))
+            return v
+        if has_default:
+            return a[1]
+        I.raise_("KeyError", node)
+    raise EngineLimit("dict.pop")
 
 
 @ext("dict.copy")
